@@ -323,10 +323,16 @@ class spawn(SpawnBase):
         and SIGINT). '''
 
         self.flush()
-        with _wrap_ptyprocess_err():
-            # PtyProcessError may be raised if it is not possible to terminate
-            # the child.
-            self.ptyproc.close(force=force)
+        try:
+            with _wrap_ptyprocess_err():
+                # PtyProcessError may be raised if it is not possible to
+                # terminate the child.
+                self.ptyproc.close(force=force)
+        except ExceptionPexpect:
+            # ptyprocess closes the descriptor before it tries to terminate
+            # the child: do not keep a number that may be reused.
+            self.child_fd = -1
+            raise
         self.isalive()  # Update exit status from ptyproc
         self.child_fd = -1
         self.closed = True
